@@ -27,8 +27,8 @@ def generate(st):
     sw = st.swarm
     g = st.gen
     cfg = {
-        'max_depth': sw.choice([1, 2, 2, 3, 3, 4]),
-        'n_leaves': sw.choice([1, 2, 2, 3, 3, 4, 4, 5, 6, 6]),
+        'max_depth': sw.choice([2, 3, 4, 4] if getattr(st, 'deep', False) else [1, 2, 2, 3, 3, 4]),
+        'n_leaves': sw.choice([4, 5, 6, 6, 6] if getattr(st, 'deep', False) else [1, 2, 2, 3, 3, 4, 4, 5, 6, 6]),
         'containers': sorted(sw.sample(CONTAINERS, sw.randint(1, len(CONTAINERS)))),
         'kinds': sorted(set(sw.sample(LEAF_KINDS, sw.randint(1, len(LEAF_KINDS))) + ['sleep'])),
         'delays': sorted(sw.sample(DELAYS, sw.randint(2, len(DELAYS)))),
